@@ -76,6 +76,7 @@ pub struct LiveNode {
     pub stored_map: BTreeMap<Digest, u64>,
     pub delivered_ok: BTreeMap<Digest, u64>,
     pub odd: BTreeSet<Digest>,
+    pub batches: BTreeSet<u8>,
     pub hist: Hist,
     pub panicked: bool,
     pub history: Vec<Ev>,
@@ -83,6 +84,11 @@ pub struct LiveNode {
 }
 
 /// Digest pre-stored in every node's store so that Byzantine payload variants are "available".
+/// Digest of payload batch k (NOT pre-stored: it arrives with `Ev::Batch(k)`).
+pub fn payload_digest(k: u8) -> Digest {
+    Digest([0xC0u8.wrapping_add(k); 32])
+}
+
 pub fn variant_payload() -> Digest {
     Digest([0xAB; 32])
 }
@@ -110,6 +116,7 @@ impl LiveNode {
             stored_map: BTreeMap::new(),
             delivered_ok: BTreeMap::new(),
             odd: BTreeSet::new(),
+            batches: BTreeSet::new(),
             hist: Hist::default(),
             panicked: false,
             history: Vec::new(),
@@ -126,6 +133,7 @@ impl LiveNode {
             snap: self.snap.clone(),
             stored: self.stored_map.clone(),
             parked: self.delivered_ok.iter().filter(|(d, _)| !self.stored.contains(*d)).map(|(d, h)| (d.clone(), *h)).collect(),
+            batches: self.batches.clone(),
             odd: self.odd.clone(),
             hist: self.hist.clone(),
             panicked: self.panicked,
@@ -143,6 +151,13 @@ impl LiveNode {
             }
             Ev::Timer => {
                 self.node.fire_timer();
+                self.observe(uni, None)
+            }
+            Ev::Batch(k) => {
+                let mut store = self.node.store.clone();
+                let key = payload_digest(k).to_vec();
+                self.node.rt.block_on(async move { store.write(key, b"batch".to_vec()).await });
+                self.batches.insert(k);
                 self.observe(uni, None)
             }
         }
